@@ -19,7 +19,7 @@ from .. import gen, probes
 from ..core import Check, jdigest, result_template
 from ..oracles import exacttime as xt
 from ..oracles import geom
-from ..run import cleanup, history_digest, read_db
+from ..run import cleanup, fmt_ts, history_digest, read_db
 from .common import drive, generic_shrinks, note_abort, over, time_info, variant
 
 POS_TOL_KM = 1e-3
@@ -31,7 +31,7 @@ class C11(Check):
     level = "exploration"
     quick_budget_s = 45.0
     thorough_budget_s = 900.0
-    rule = ("case = (start instant at 1 s granularity inside the EOP table, step, number of steps, 1-3 ground sites); every epoch of "
+    rule = ("case = (start instant at 1 s granularity inside the EOP table, step, number of steps, 1-3 ground sites, 0-2 further sites joining through sensor_addition events); every epoch of "
             "every site is judged; non-trivial = at least one step ran; distinct = digest of (time block, sites)")
     assumptions = [
         "the repo's IAU-76/FK5 eci2ecef is trusted as the inverse transform *at the exact epoch* (C04 is about the transform itself)",
@@ -66,6 +66,18 @@ class C11(Check):
         orb = gen.draw_orbit(rng, rng.choice(["leo", "geo"]))
         cfg = gen.base_config(start, step, nsteps, [gen.engine_block(1, sensors, [gen.eci_target(10001, orb["pos"], orb["vel"])])],
                               out_step=step * rng.choice([1, 1, 2]), model="two_body", truth_only=True, seed=rng.randrange(1, 2**31))
+        # ground facilities that join the run through a sensor_addition event (whole-second event times, on and off step boundaries)
+        if rng.random() < 0.35:
+            cfg.setdefault("events", [])
+            for j in range(rng.choice([1, 1, 2])):
+                lat, lon, alt = gen.draw_site(rng)
+                k = rng.randrange(1, nsteps + 1)
+                off = 0 if rng.random() < 0.6 else -rng.randrange(0, step)
+                T = start + dt.timedelta(seconds=k * step + off)
+                if T <= start:
+                    T = start + dt.timedelta(seconds=step)
+                cfg["events"].append({"scope": "scenario_step", "scope_instance_id": 0, "event_type": "sensor_addition", "start_time": fmt_ts(T), "tasking_engine_id": 1,
+                                      "sensor_agent": gen.ground_sensor(95001 + j, lat, lon, alt, gen.sensor_block(rng.choice(["optical", "radar", "adv_radar"])))})
         ncalls = rng.choice([1, 1, 2])
         plan = [{"seconds": step * nsteps}] if ncalls == 1 or nsteps < 2 else [{"seconds": step * rng.randrange(1, nsteps)}, {"seconds": step * nsteps}]
         return {"config": cfg, "plan": plan, "schedule": {"name": "seeded", "seed": rng.randrange(2**31)}, "job_seed": rng.randrange(2**31)}
@@ -73,14 +85,17 @@ class C11(Check):
     def sample_view(self, case):
         t = case["config"]["time"]
         sites = [(s["state"]["latitude"], s["state"]["longitude"], s["state"]["altitude"]) for e in case["config"]["engines"] for s in e["sensors"]]
-        return {"start": t["start_timestamp"], "step": t["physics_step_sec"], "plan": case["plan"], "sites_lat_lon_alt": sites}
+        added = [(e["start_time"], e["sensor_agent"]["state"]["latitude"], e["sensor_agent"]["state"]["longitude"]) for e in case["config"].get("events", [])]
+        return {"start": t["start_timestamp"], "step": t["physics_step_sec"], "plan": case["plan"], "sites_lat_lon_alt": sites, "sites_added_by_event": added}
 
     def run(self, case: dict) -> dict:
         res = result_template()
         viol = res["violations"]
         S, step, out, ncfg = time_info(case)
         sites = {s["id"]: s["state"] for e in case["config"]["engines"] for s in e["sensors"]}
-        res["key"] = jdigest([case["config"]["time"], sorted((k, v["latitude"], v["longitude"], v["altitude"]) for k, v in sites.items())])
+        added = {e["sensor_agent"]["id"]: e["sensor_agent"]["state"] for e in case["config"].get("events", []) if e["event_type"] == "sensor_addition"}
+        sites.update(added)
+        res["key"] = jdigest([case["config"]["time"], sorted((k, v["latitude"], v["longitude"], v["altitude"]) for k, v in sites.items()), case["config"].get("events")])
         ctx = drive(case)
         try:
             aborted = note_abort(ctx, res)
@@ -129,7 +144,8 @@ class C11(Check):
             steps = max(sn["k"] for sn in snaps) if snaps else 0
             res["nontrivial"] = steps > 0
             res["sim_seconds"] = float(steps * step)
-            res["counters"].update({"epochs_judged": len(snaps) * len(sites), "db_rows_judged": nrows, "crossed_midnight": crossed_midnight,
+            n_added = sum(1 for sn in snaps for sid in sn["sensors"] if sid in added)
+            res["counters"].update({"epochs_judged": sum(len(sn["sensors"]) for sn in snaps), "epochs_judged_of_sites_added_by_event": n_added, "db_rows_judged": nrows, "crossed_midnight": crossed_midnight,
                                "start_not_on_whole_minute": int(S.second != 0), "high_latitude_site": int(any(abs(s["latitude"]) > 80 for s in sites.values())),
                                "antimeridian_site": int(any(abs(abs(s["longitude"]) - 180) < 0.01 for s in sites.values()))})
             if aborted and not snaps:
